@@ -1123,7 +1123,8 @@ bool Library::isIntArgValid(const Token *ftok, int argnr, const MathLib::bigint 
     TokenList tokenList(settings, ftok->isCpp() ? Standards::Language::CPP : Standards::Language::C);
     gettokenlistfromvalid(ac->valid, tokenList);
     for (const Token *tok = tokenList.front(); tok; tok = tok->next()) {
-        if (tok->isNumber() && argvalue == MathLib::toBigNumber(tok))
+        // a single value: a number that is not a bound of a range
+        if (Token::Match(tok, "%num% !!:") && !Token::simpleMatch(tok->previous(), ":") && argvalue == MathLib::toBigNumber(tok))
             return true;
         if (Token::Match(tok, "%num% : %num%") && argvalue >= MathLib::toBigNumber(tok) && argvalue <= MathLib::toBigNumber(tok->tokAt(2)))
             return true;
@@ -1149,7 +1150,8 @@ bool Library::isFloatArgValid(const Token *ftok, int argnr, double argvalue, con
             return true;
         if ((!tok->previous() || tok->strAt(-1) == ",") && Token::Match(tok,": %num%") && argvalue <= MathLib::toDoubleNumber(tok->tokAt(1)))
             return true;
-        if (Token::Match(tok, "%num%") && MathLib::isFloat(tok->str()) && MathLib::isEqual(tok->str(), MathLib::toString(argvalue)))
+        // a single value: a number that is not a bound of a range
+        if (Token::Match(tok, "%num% !!:") && !Token::simpleMatch(tok->previous(), ":") && MathLib::isFloat(tok->str()) && MathLib::isEqual(tok->str(), MathLib::toString(argvalue)))
             return true;
         if (Token::Match(tok, "! %num%") && MathLib::isFloat(tok->strAt(1)))
             return MathLib::isNotEqual(tok->strAt(1), MathLib::toString(argvalue));
